@@ -34,6 +34,7 @@ type Profile struct {
 	Cancel         int // percent of scenarios with a cancel/shutdown step
 	Delay          int
 	Notifier       int
+	UserWG         int // percent of containers with WithWaitGroup
 	Gets           int  // weight of get steps
 	PostTerm       bool // allow mutators after the terminal event
 	PostTermWait   bool // ... and Bar.Wait / getters on finished bars
@@ -99,7 +100,7 @@ func genDecorSpec(t *rapid.T, prof *Profile, sync bool, side int) engine.DecorSp
 	if prof.Wraps && rapid.Bool().Draw(t, "wrapped") {
 		nw := rapid.IntRange(1, 3).Draw(t, "nwrap")
 		for i := 0; i < nw; i++ {
-			d.Wrap = append(d.Wrap, rapid.SampledFrom([]string{"oncomplete", "onabort", "meta", "oncompletemeta", "onabortmeta", "ocoa", "ocmoam", "oncomplete-e", "onabort-e", "ocoa-e"}).Draw(t, "wrap"))
+			d.Wrap = append(d.Wrap, rapid.SampledFrom([]string{"oncomplete", "onabort", "meta", "oncompletemeta", "onabortmeta", "ocoa", "ocmoam", "oncomplete-e", "onabort-e", "ocoa-e", "cond", "pred", "condelse"}).Draw(t, "wrap"))
 		}
 	}
 	d.Listener = pct(t, prof.Listeners, "listener")
@@ -128,6 +129,12 @@ func genBarSpec(t *rapid.T, prof *Profile, idx int, succOf map[int]bool) engine.
 		b.Priority = &p
 	}
 	b.Trim = pct(t, 20, "trim")
+	if pct(t, 12, "barwidth") {
+		b.BarWidth = rapid.IntRange(1, 120).Draw(t, "barwidthv")
+	}
+	if pct(t, 15, "barid") {
+		b.ID = rapid.IntRange(1, 1000).Draw(t, "baridv")
+	}
 	b.RmOnComplete = pct(t, prof.Rm, "rm")
 	b.NoPop = pct(t, prof.NoPop, "nopop")
 	if idx > 0 && pct(t, prof.Queue, "queue") {
@@ -222,6 +229,7 @@ func genSetup(t *rapid.T, prof *Profile) *engine.Scenario {
 	}
 	sc.Cfg.Delay = pct(t, prof.Delay, "delay")
 	sc.Cfg.Notifier = pct(t, prof.Notifier, "notifier")
+	sc.Cfg.UserWG = pct(t, prof.UserWG, "userwg")
 	succOf := map[int]bool{}
 	for i := 0; i < nb; i++ {
 		sc.Bars = append(sc.Bars, genBarSpec(t, prof, i, succOf))
